@@ -17,6 +17,11 @@ def run(ctx):
     ss += S.generate(ctx, 4 if ctx.quick else 25, 2, max_e=10, max_loops=4, routings_per_graph=2,
                      names=["banana4", "ladder3x", "mercedes", "sunrise"])
     ss += S.generate(ctx, 2 if ctx.quick else 10, 2, max_e=6, max_loops=5, routings_per_graph=2, names=["banana6"])
+    # extremely small xi: L matrices with entries far outside [1e-50, 1e50] (any magnitude guard must still give the same momenta)
+    ss += S.generate(ctx, 6 if ctx.quick else 30, 4, max_e=5, max_loops=3, routings_per_graph=1, kinds=("tiny_xi",),
+                     names=["sunrise", "bubble", "double_triangle", "banana4", "triangle"])
+    ss += S.generate(ctx, 4 if ctx.quick else 20, 8, max_e=4, max_loops=2, routings_per_graph=1, kinds=("tiny_xi",),
+                     names=["sunrise", "bubble_chain"], dims=[1, 2], mass_mode="all")
     # zero shifts on some edges: u_l = 0 for some loops but not others
     for s in list(ss[:: 5]):
         r = dict(s["routing"]); sh = [list(v) for v in r["shifts"]]
@@ -31,6 +36,7 @@ def run(ctx):
             ss.append(s2)
     S.run(ss)
     SC.corr_momenta(ctx, ss)
+    SC.corr_matrix(ctx, ss)     # the factors Q, Q^-T, L^-1 the momenta are built from: model decomposition on the implementation's L
     for s in ss:
         a, c, r = s["impl"], s["case"], s["routing"]
         nl, D = r["L"], c["D"]
@@ -48,6 +54,19 @@ def run(ctx):
             ctx.count("nonfinite_skipped"); continue
         x = SC.fr_list(a["log"]["momtrop_feynman_parameter"])
         ex = SC.exact_quantities(s, x)
+        # "k + L^-1 u = sqrt(v/2 lambda) Q^-T q with Q Q^T = L": the returned Q^-T whitens L. Accuracy is governed by the condition number
+        # of the SCALED matrix (graded L matrices - tiny xi - have astronomically large cond(L) but a modest scaled one)
+        if ex is not None and ex["det"] > 0 and SC.finite([md["decomp"]["qti"], md["l"]]):
+            tw = 1000 * nl * nl * SC.EPS * ex["cond_s"] * ex["cond_s"]
+            if tw <= Fraction(1, 100):
+                Qti = X.mat_from_bits(nl, md["decomp"]["qti"])
+                Lb = X.mat_from_bits(nl, md["l"])
+                W = X.matmul(X.transpose(Qti), X.matmul(Lb, Qti))
+                dev = max(abs(W[i][j] - (1 if i == j else 0)) for i in range(nl) for j in range(nl))
+                ctx.count("whitening_checked")
+                if dev > tw:
+                    ctx.violation(f"Q^-T of the sample does not whiten its L matrix: max |Q^-1 L Q^-T - 1| = {float(dev):.3e} (tolerance {float(tw):.1e}, "
+                                  f"scaled condition number {float(ex['cond_s']):.2e})", S.small_req(s), expected="identity", observed=float(dev)); continue
         if ex is None or ex["det"] <= 0 or ex["V"] <= 0:
             ctx.count("degenerate_exact_skipped"); continue
         n = len(x)
